@@ -110,6 +110,7 @@ ModOps ==
   \cup {Op("DropExclude", <<p, v>>) : p \in {"example.com/a", "example.com/b"}, v \in {"v1.0.0", "v1.1.0"}}
   \cup {Op("AddReplace", <<p, ov, "example.com/new", "v1.2.0">>) : p \in {"example.com/a", "example.com/b"}, ov \in {"", "v1.0.0"}}
   \cup {Op("AddReplace", <<"example.com/a", ov, "../local", "">>) : ov \in {"", "v1.1.0"}}
+  \cup {Op("AddReplace", <<"example.com/b", "", "../o'neil/b", "">>)}
   \cup {Op("DropReplace", <<p, ov>>) : p \in {"example.com/a", "example.com/b"}, ov \in {"", "v1.0.0"}}
   \cup {Op("AddRetract", <<lo, hi, r>>) : lo \in {"v1.0.0"}, hi \in {"v1.0.0", "v1.1.0"}, r \in {"", "newwhy", "two\nlines"}}
   \cup {Op("AddRetract", <<"v1.2.0", "v1.2.0", "">>), Op("AddRetract", <<"v2.0.0", "v2.0.0", "">>), Op("AddRetract", <<"v1.0", "v1.0.0", "x">>)}
@@ -121,7 +122,7 @@ WorkOps ==
        {Op("AddGoStmt", <<v>>) : v \in {"1.20", "1.x"}} \cup {Op("DropGoStmt", <<>>)}
   \cup {Op("AddToolchainStmt", <<"go1.21.0">>), Op("DropToolchainStmt", <<>>)}
   \cup {Op("AddGodebug", <<k, v>>) : k \in {"k1", "k2"}, v \in {"v1", "v3"}} \cup {Op("DropGodebug", <<k>>) : k \in {"k1", "k2"}}
-  \cup {Op("AddUse", <<p>>) : p \in {"./x", "./y", "./new"}} \cup {Op("DropUse", <<p>>) : p \in {"./x", "./y"}}
+  \cup {Op("AddUse", <<p>>) : p \in {"./x", "./y", "./new", "./o'brien"}} \cup {Op("DropUse", <<p>>) : p \in {"./x", "./y"}}
   \cup {OpL("SetUse", l) : l \in {<<>>, <<"./x">>, <<"./y", "./x">>, <<"./new", "./x", "../z">>}}
   \cup {Op("AddReplace", <<p, ov, "example.com/new", "v1.2.0">>) : p \in {"example.com/a", "example.com/b"}, ov \in {"", "v1.0.0"}}
   \cup {Op("DropReplace", <<p, ov>>) : p \in {"example.com/a"}, ov \in {"", "v1.0.0"}}
